@@ -1224,6 +1224,8 @@ def judge(case, impl, model):
             if "error" not in modes.values():
                 msg = msg or (f"real {op} succeeded but the model says it raises (a container where a scalar is "
                               f"declared?) for {json.dumps(impl['shape'])[:200]}")
+        elif model.get("unknown"):
+            pass      # a site the table has no row for: the model makes no prediction (the poke oracle below still judges)
         elif sorted(a for a in model.get("shared", []) if a not in impl.get("holders", [])) != sorted(impl.get("shared", [])):
             msg = msg or (f"aliasing differs for {op}: real shares source cells {impl.get('shared')} "
                           f"(paths {impl.get('shared_paths')}), model predicts {model.get('shared')}")
@@ -1284,6 +1286,8 @@ def tags(case, impl, model):
         t.append("poke-changed:" + ("yes" if impl.get("poked") else "no"))
         if isinstance(model, dict) and "out" in model:
             t.append("model-safe-shape:" + str(model["out"].get("safe")))
+        for kc in (model.get("unknown") or (model.get("out") or {}).get("unknown") or [])[:3] if isinstance(model, dict) else []:
+            t.append("unknown-site:" + ":".join(x.split(".")[-1] for x in kc))
     if not impl.get("args_same", True):
         t.append("ARGS-MUTATED")
     return t
@@ -1585,8 +1589,15 @@ NOFIT = {"m": [["z", {"l": [1]}]]}       # a dict: fits neither Array[Integer] n
 
 
 ENUM_LIT = {"k": "enumLit", "values": [1, 2, "x1"]}
-MISFIT_OPTS = {"number": INT, "string": STR, "scalar": {"k": "boolean"}, "enum": ENUM_LIT,
-               "coll": {"k": "mapOf", "key": STR, "val": INT}, "inline": dict(_cls("InlM", [["x", INT]]), inline=True)}
+MAP_INT = {"k": "mapOf", "key": STR, "val": INT}
+# category of the delegated (last) option -> (option the value is stored through, stored value, delegated option)
+MISFIT_OPTS = {"number": (ARR_INT, {"l": [1, 2]}, INT), "string": (ARR_INT, {"l": [1, 2]}, STR),
+               "scalar": (ARR_INT, {"l": [1, 2]}, {"k": "boolean"}), "enum": (ARR_INT, {"l": [1, 2]}, ENUM_LIT),
+               "coll": (ARR_INT, {"l": [1, 2]}, MAP_INT),
+               "inline": (ARR_INT, {"l": [1, 2]}, dict(_cls("InlM", [["x", INT]]), inline=True)),
+               "struct": (ARR_INT, {"l": [1, 2]}, INNER),
+               "tupl": (MAP_INT, {"m": [["k", 1]]}, {"k": "tupleOf", "item": INT}),
+               "wrap": (ARR_INT, {"l": [1, 2]}, {"k": "oneOf", "fields": [STR, MAP_INT]})}
 
 
 def witness_case(op, kind, cat):
@@ -1595,9 +1606,10 @@ def witness_case(op, kind, cat):
         # reaches `<option of category cat>.serialize`
         if op not in OUTPUT_FIELD_OPS or cat not in MISFIT_OPTS:
             return None
-        d = {"k": "anyOf", "fields": [ARR_INT, copy.deepcopy(MISFIT_OPTS[cat])]}
+        first, value, last = MISFIT_OPTS[cat]
+        d = {"k": "anyOf", "fields": [copy.deepcopy(first), copy.deepcopy(last)]}
         cls = _cls(f"W_misfit_{cat}", [["f", d]])
-        base = {"suite": "alias", "cls": cls, "witness": [op, kind, cat], "pokeLimit": 120, "kw": [["f", {"l": [1, 2]}]]}
+        base = {"suite": "alias", "cls": cls, "witness": [op, kind, cat], "pokeLimit": 120, "kw": [["f", value]]}
         return dict(base, op=op, field="f") if op == "fieldSerialize" else dict(base, op=op)
     if kind in ("anyOf", "allOf") and cat == "enum":
         if op not in OUTPUT_FIELD_OPS:
